@@ -46,7 +46,7 @@ PROPS = {
                         "msmart.lan.Security.udpid", DISCM + "Discover._authenticate_device"],
             "level": "proof"},
     "C17": {"targets": [DISCM + "Discover._get_device_version", DISCM + "Discover._get_device_info#wellformed", DISCM + "Discover._get_device_class",
-                        DISCM + "Discover._get_device", DISCM + "_DiscoverProtocol._send_discovery", "C17.discovery_probe_is_pinned"],
+                        DISCM + "Discover._get_device", DISCM + "Discover._get_device#wellformed", DISCM + "_DiscoverProtocol._send_discovery", "C17.discovery_probe_is_pinned"],
             "level": "proof"},
     "C18": {"targets": [DISCM + "_DiscoverProtocol.datagram_received", DISCM + "Discover._get_device", DISCM + "Discover._get_device_info",
                         DISCM + "Discover._get_device_version"],
